@@ -337,11 +337,32 @@ RANGE_MAX = 1000.0      # manual: default 'maximum' of -range; min/max are the f
 FP_MINIMAL = "minimal_solve: model printed after a failed cl1 solve (status of the last solve_with_mask ignored)"
 FP_RANGE_ERR = "range(): min/max of a failed cl1 call are reported ('Error in subroutine range' printed, result kept)"
 FP_RANGE_PRUNED = "range(): computed for the model pruned of |transfer| <= 1e-9 members while the reported values come from the unpruned solve (value outside min..max by O(1e-9))"
-FP_RANGE_H2O = "range: value outside min..max, candidate phases differing only by H2O with -mineral_water true (near-collinear columns, cl1 kode 0)"
-FP_MODEL_H2O = "model: constraint violated, candidate phases differing only by H2O with -mineral_water true (near-collinear columns, cl1 kode 0)"
+FP_RANGE_H2O = "range: value outside min..max, candidate phases linearly dependent apart from H2O (collinear columns, cl1 kode 0)"
+FP_MODEL_H2O = "model: constraint violated, candidate phases linearly dependent apart from H2O (collinear columns, cl1 kode 0 / false infeasible)"
 FP_RANGE_MIX = "range: value outside min..max, two or more initial solutions (cl1 in range() returns kode 0 for a non-optimal bound)"
+FP_MINIMAL_TIGHT = "minimal: a reported model strictly contains another, solver tolerance <= 1e-12 (-tolerance 1e-12 / -multiple_precision without INVERSE_CL1MP: cl1 calls a feasible subset infeasible)"
 FP_RANGE = "range: value outside its reported min..max"
 FP_RANGE_INV = "range: min > max"
+
+
+def dependent_apart_from_water(phases, nu):
+    """A minimal-ish list of candidate phases whose compositions are linearly dependent once H and O are ignored
+    (Gypsum / Anhydrite, Calcite / Aragonite, Kaolinite / Gibbsite / Chalcedony ...): the columns of the inverse
+    problem are then collinear except possibly in the water balance.  None if the candidates are independent."""
+    import numpy as np
+    els = sorted(set(e for p in phases for e in nu[p] if e not in ("H", "O")))
+    if not phases or not els:
+        return None
+    A = np.array([[nu[p].get(e, 0.0) for p in phases] for e in els], dtype=float)
+    if np.linalg.matrix_rank(A, tol=1e-9) >= len(phases):
+        return None
+    # smallest dependent subset by dropping phases while the rest stays dependent
+    keep = list(range(len(phases)))
+    for i in list(keep):
+        trial = [j for j in keep if j != i]
+        if trial and np.linalg.matrix_rank(A[:, trial], tol=1e-9) < len(trial):
+            keep = trial
+    return tuple(phases[j] for j in keep)
 
 
 def solver_tolerance(opts):
@@ -425,13 +446,7 @@ def judge(problem, stoich, out, selstr):
             return problems, info
 
     sets = []
-    collinear = None
-    if opts.get("mineral_water") is not False:
-        for a, b in [(a, b) for a in phases for b in phases if a < b]:
-            diff = {e: nu[a].get(e, 0.0) - nu[b].get(e, 0.0) for e in set(nu[a]) | set(nu[b])}
-            nz = {e: v for e, v in diff.items() if abs(v) > 1e-12}
-            if set(nz) == {"H", "O"} and abs(nz["H"] - 2 * nz["O"]) < 1e-12:
-                collinear = (a, b)
+    collinear = dependent_apart_from_water(phases, nu)
     for k, (mod, row) in enumerate(zip(models, rows)):
         tag = "model %d of %d" % (k + 1, len(models))
         start = len(problems)
@@ -462,7 +477,8 @@ def judge(problem, stoich, out, selstr):
                 if abs(v) > RANGE_MAX:
                     # documented semantics: min/max are clipped to -/+ maximum (default 1000); the statement cannot
                     # hold for an unbounded transfer (e.g. two phases of identical formula) - not judged
-                    info.setdefault("diags", []).append("%s: %s = %r exceeds the -range maximum %g; range [%r, %r] not judged" % (tag, name, v, RANGE_MAX, lo, hi))
+                    info["beyond_range_max"] = info.get("beyond_range_max", 0) + 1
+                    info.setdefault("beyond", []).append("%s: %s = %r exceeds the -range maximum %g; range [%r, %r] not judged" % (tag, name, v, RANGE_MAX, lo, hi))
                     continue
                 slack = tol + 1e-11 * max(abs(v), abs(lo), abs(hi))
                 if not (lo - slack <= v <= hi + slack):
@@ -566,14 +582,14 @@ def judge(problem, stoich, out, selstr):
                 if pre["range_err"]:
                     problems[i] = (FP_RANGE_ERR, what + "; 'Error in subroutine range. Kode = ..' printed %d time(s) for this model" % pre["range_err"])
                 elif collinear:
-                    problems[i] = (FP_RANGE_H2O, what + "; candidate phases %s and %s" % collinear)
+                    problems[i] = (FP_RANGE_H2O, what + "; dependent candidate phases: %s" % ", ".join(collinear))
                 elif nsol > 2:
                     problems[i] = (FP_RANGE_MIX, what)
             elif mod["minimal_note"] and pre["bare"]:
                 problems[i] = (FP_MINIMAL, what + "; %d 'CL1: Roundoff errors in optimization' message(s) from model solves precede this 'minimum number of phases' model%s" % (
                     pre["bare"], ", and 'WARNING: Roundoff errors in minimal calculation'" if pre["minimal_warn"] else ""))
             elif collinear:
-                problems[i] = (FP_MODEL_H2O, what + "; candidate phases %s and %s" % collinear)
+                problems[i] = (FP_MODEL_H2O, what + "; dependent candidate phases: %s" % ", ".join(collinear))
     info["sets"] = [sorted(s) for s in sets]
     # ---- (iv) -minimal
     if opts.get("minimal"):
@@ -584,6 +600,10 @@ def judge(problem, stoich, out, selstr):
                     fp = "minimal: a reported model strictly contains another reported model"
                     if models[a]["pre"]["bare"] or models[b]["pre"]["bare"]:
                         what, fp = "%s [%s]" % (what, fp), FP_MINIMAL
+                    elif collinear:
+                        what, fp = "%s [%s]; dependent candidate phases: %s" % (what, fp, ", ".join(collinear)), FP_MODEL_H2O
+                    elif tol <= 1e-12:
+                        what, fp = "%s [%s]; declared solver tolerance %g" % (what, fp, tol), FP_MINIMAL_TIGHT
                     problems.append((fp, what))
     # de-duplicate by fingerprint
     seen, uniq = set(), []
